@@ -11,7 +11,7 @@ CHECK_FN = "C10.check_case"
 SHARD = 40
 RULE = ("a case is a namespace tree on disk (1-4 root directories, nesting depth 0-3, .dsdl and .uavcan files, several versions per "
         "name, files that are no definitions, directories named like definition files) plus read_namespace / read_files calls (target subsets of 1-5 files, with repetitions) "
-        "and calls whose directory sets are nested, equal, or equal in name up to case with allow_root_namespace_name_collision "
+        "and calls whose directory sets are nested (also with equal names, at depth 1 and deeper), equal, or equal in name up to case with allow_root_namespace_name_collision "
         "both ways; every call is repeated with 2-3 equivalent spellings of the directory arguments (relative, '..', '.', through a "
         "symbolic link, str / Path, permuted, duplicated; for read_files also directories and target files spelled differently: root "
         "through a symbolic link with real target paths and the converse; a root that holds only dependencies given as a bare "
@@ -85,7 +85,20 @@ def gen_case(rng, tier):
         defs.append(B.mkfile(len(defs), twin_root + ["q"], "Own", 1, 0, [["plain", 8]]))
         defs.append(B.mkfile(len(defs), case_root, "Own", 1, 0, [["plain", 16]]))
         defs.append(B.mkfile(len(defs), other, "Own", 1, 0, []))
-        cands = [twin_root, case_root, other, r0 + ["s"], r0 + ["s", "t"], [r0[0]], list(r0)] + [list(r) for r in roots[1:]]
+        # directories nested in r0 that carry r0's own name (ignoring case), at depth 1 and deeper
+        same1 = r0 + [r0[-1]]
+        same3 = r0 + ["s", "t", r0[-1].swapcase() if r0[-1].swapcase() != r0[-1] else r0[-1].upper()]
+        extra_dirs += [same1, same3]
+        defs.append(B.mkfile(len(defs), same1, "Same", 1, 0, [["plain", 8]]))
+        defs.append(B.mkfile(len(defs), same3, "Same", 1, 0, []))
+        cands = [twin_root, case_root, other, r0 + ["s"], r0 + ["s", "t"], [r0[0]], list(r0), same1, same3] + [list(r) for r in roots[1:]]
+        for nested in (same1, same3):
+            al = rng.random() < 0.7
+            qs.append({"k": "ns", "root": list(r0), "lookups": [list(nested)], "allow": al})
+            qs.append({"k": "ns", "root": list(nested), "lookups": [list(r0)], "allow": not al})
+        sid = [f["id"] for f in defs if f["dir"] in (same1, same3)]
+        qs.append({"k": "files", "targets": [rng.choice(sid)], "roots": [list(r0), list(rng.choice([same1, same3]))], "lookups": []})
+        qs.append({"k": "files", "targets": [rng.choice(sid)], "roots": [list(rng.choice([same1, same3]))], "lookups": [list(r0)]})
         for _ in range(rng.choice([3, 4, 5])):
             k = rng.choice([1, 1, 2, 3])
             lk = [list(rng.choice(cands)) for _ in range(k)]
@@ -180,6 +193,19 @@ def corpus():
         if q["k"] == "files":
             q["variants"] += [{"how": "link", "how_targets": "abs", "perm": 1, "dup": False, "as_path": True},
                               {"how": "abs", "how_targets": "link", "perm": 1, "dup": False, "as_path": False}]
+    # a directory nested in another one of the same name (ignoring case): nested root namespaces whatever the flag says
+    vn = ["a", "vendor"]
+    v1, v3 = vn + ["vendor"], vn + ["deep", "er", "VENDOR"]
+    fv = [B.mkfile(0, vn, "Top", 1, 0, [["plain", 8]]), B.mkfile(1, v1, "Same", 1, 0, []), B.mkfile(2, v3, "Same", 1, 0, [])]
+    qv = []
+    for nested in (v1, v3):
+        for al in (True, False):
+            qv.append({"k": "ns", "root": vn, "lookups": [nested], "allow": al, "variants": []})
+            qv.append({"k": "ns", "root": nested, "lookups": [vn], "allow": al, "variants": []})
+        qv.append({"k": "files", "targets": [0], "roots": [vn, nested], "lookups": [], "variants": []})
+        qv.append({"k": "files", "targets": [1 if nested is v1 else 2], "roots": [nested], "lookups": [vn], "variants": []})
+        qv.append({"k": "files", "targets": [1 if nested is v1 else 2], "roots": [nested], "lookups": [], "variants": []})
+    nest_case = {"files": fv, "queries": qv, "flavor": "corpus-nested-same-name", "dirs": [vn, v1, v3]}
     # history: the same directories first with name collisions allowed, then disallowed (and the other way round)
     hn, hd, hc = ["a", "ns"], ["d", "ns"], ["e", "NS"]
     fh = [B.mkfile(0, hn, "A", 1, 0, [["plain", 8]]), B.mkfile(1, hd + ["q"], "Own", 1, 0, []), B.mkfile(2, hc, "Own", 1, 0, [])]
@@ -201,7 +227,7 @@ def corpus():
     extra = {"files": fb, "queries": qb, "flavor": "corpus-bare", "dirs": [an, pl, an + ["Backup.1.0.uavcan"], pl + ["s", "Telemetry.0.9.dsdl"], pl + ["Seed.1.1.dsdl"]]}
     # F5b: two files, one name and version, equal texts
     tw = [B.mkfile(0, ns, "A", 1, 0, [["plain", 8]]), B.mkfile(1, ns, "A", 1, 0, [["plain", 8]], port=7000), B.mkfile(2, ns, "B", 1, 0, [])]
-    return [extra, hist_case, {"files": fs, "queries": qs, "flavor": "corpus", "dirs": [ns, lk]},
+    return [extra, hist_case, nest_case, {"files": fs, "queries": qs, "flavor": "corpus", "dirs": [ns, lk]},
             {"files": tw, "queries": [{"k": "ns", "root": ns, "lookups": [], "allow": True, "variants": []}], "flavor": "corpus-twins", "dirs": [ns]}]
 
 
